@@ -73,6 +73,11 @@ func Discharge(obligs []*Oblig, opt DischargeOpts) []Result {
 		defer smu.Unlock()
 		return GroupScript(os, models)
 	}
+	mkKey := func(os []*Oblig) string {
+		smu.Lock()
+		defer smu.Unlock()
+		return GroupKey(os)
+	}
 	// weak: the same goal with the quantified hypotheses dropped (fewer hypotheses: unsat still proves the obligation)
 	weakScript := func(o *Oblig) string {
 		smu.Lock()
@@ -95,14 +100,32 @@ func Discharge(obligs []*Oblig, opt DischargeOpts) []Result {
 		return q.Script(false)
 	}
 	single := func(i int) {
+		key := ""
 		if !opt.All && Cache != nil {
-			if cs := mkScript([]*Oblig{obligs[i]}, true); Cache.Proved(cs) {
+			key = mkKey([]*Oblig{obligs[i]})
+			hit := Cache.ProvedKey(key)
+			if !hit {
+				if cs := mkScript([]*Oblig{obligs[i]}, true); Cache.Proved(cs) {
+					hit = true
+					Cache.AddKey(key)
+				}
+			}
+			if hit {
 				mu.Lock()
 				res[i].Status, res[i].By = "unsat", "cache"
 				mu.Unlock()
 				return
 			}
 		}
+		defer func() {
+			// whatever route proved it, remember the structural key too
+			mu.Lock()
+			ok := res[i].Status == "unsat"
+			mu.Unlock()
+			if ok && key != "" {
+				Cache.AddKey(key)
+			}
+		}()
 		if ws := weakScript(obligs[i]); ws != "" && !opt.All {
 			r := solve.Run(solve.Solvers[0], ws, 2*time.Second)
 			if r.Answer == "unsat" {
@@ -128,7 +151,10 @@ func Discharge(obligs []*Oblig, opt DischargeOpts) []Result {
 				}
 			}
 			if len(qf) > 0 {
-				parts = append([]*smt.Term{smt.And(qf...)}, parts...)
+				smu.Lock() // term construction is not thread safe
+				qfAll := smt.And(qf...)
+				smu.Unlock()
+				parts = append([]*smt.Term{qfAll}, parts...)
 			}
 			if len(parts) > 1 {
 				all := true
@@ -188,8 +214,28 @@ func Discharge(obligs []*Oblig, opt DischargeOpts) []Result {
 			for k, i := range g {
 				os[k] = obligs[i]
 			}
+			gkey := ""
+			if !opt.All && Cache != nil {
+				gkey = mkKey(os)
+				if Cache.ProvedKey(scriptKey("group-not-proved-at-once:" + gkey)) {
+					// this group was tried before and had to be split: go to the single obligations directly
+					for _, i := range g {
+						single(i)
+					}
+					return
+				}
+				if Cache.ProvedKey(gkey) {
+					mu.Lock()
+					for _, i := range g {
+						res[i].Status, res[i].By, res[i].Grouped = "unsat", "cache", true
+					}
+					mu.Unlock()
+					return
+				}
+			}
 			script := mkScript(os, false)
 			if !opt.All && Cache.Proved(script) {
+				Cache.AddKey(gkey)
 				mu.Lock()
 				for _, i := range g {
 					res[i].Status, res[i].By, res[i].Grouped = "unsat", "cache", true
@@ -211,7 +257,13 @@ func Discharge(obligs []*Oblig, opt DischargeOpts) []Result {
 				}
 				mu.Unlock()
 				Cache.Add(script)
+				if gkey != "" {
+					Cache.AddKey(gkey)
+				}
 				return
+			}
+			if gkey != "" {
+				Cache.AddKey(scriptKey("group-not-proved-at-once:" + gkey))
 			}
 			for _, i := range g {
 				single(i)
@@ -330,6 +382,9 @@ func Discharge(obligs []*Oblig, opt DischargeOpts) []Result {
 	}
 	for _, i := range proved {
 		Cache.Add(mkScript([]*Oblig{obligs[i]}, true))
+		if Cache != nil {
+			Cache.AddKey(mkKey([]*Oblig{obligs[i]}))
+		}
 	}
 	return res
 }
